@@ -652,6 +652,40 @@ crate::harness! {
     }
 }
 
+// ---- C09: the fixed data source of the DFS scheduler rewinds to the same stream in every execution ---------------
+fn fixed_source_rewinds(s0: u64) {
+    use shuttle_engine::scheduler::data::fixed::FixedDataSource;
+    let mut a = FixedDataSource::initialize(s0);
+    let r1 = a.reinitialize();
+    let d10 = a.next_u64();
+    let d11 = a.next_u64();
+    // second execution: fewer draws than the first; third: more
+    let r2 = a.reinitialize();
+    let d20 = a.next_u64();
+    let r3 = a.reinitialize();
+    let d30 = a.next_u64();
+    let d31 = a.next_u64();
+    let _ = a.next_u64();
+    let r4 = a.reinitialize();
+    let d40 = a.next_u64();
+    let d41 = a.next_u64();
+    assert!(r1 == r2 && r2 == r3 && r3 == r4, "C09: the fixed data source reports a different seed for a later execution");
+    assert!(d10 == d20 && d10 == d30 && d10 == d40, "C09: the first draw of a later execution differs from the first execution's");
+    assert!(d11 == d31 && d11 == d41, "C09: the second draw of a later execution differs from the first execution's");
+    // the reported seed re-creates the stream (what a replay of a DFS schedule relies on)
+    let mut b = RandomDataSource::initialize(r1);
+    assert!(b.reinitialize() == r1 && b.next_u64() == d10 && b.next_u64() == d11, "C09/C01: the seed reported by the fixed data source does not reproduce its stream");
+    kani::cover!(d10 != d11, "the stream is not constant");
+}
+
+crate::harness! {
+    #[kani::unwind(6)]
+    fn c09_fixed_data_source_rewinds() {
+        fixed_source_rewinds(0x1234_5678);
+        fixed_source_rewinds(0);
+    }
+}
+
 // ---- C10: reseeding with symbolic seeds of bounded width -----------------------------------------------------
 fn reseed_bits<const BITS: u32>() {
     let s0: u64 = kani::any();
